@@ -297,10 +297,37 @@ HANGS = [0]          # cases on which the implementation did not return in time,
 HANG_STOP = 5        # after that many, the remaining cases are not run (a hanging tree must not cost hours)
 
 
+CALLS = [0]
+THREAD_EVERY = 4     # every 4th case is served on a fresh worker thread instead of the importing (main) thread
+
+
+def _in_worker(mod, case):
+    """run the case on a fresh thread: WSGI servers serve requests on threads other than the one that imported the
+    framework, and state created at import time (shared error responses, thread-local stores) must work there"""
+    import threading
+    box = {}
+
+    def work():
+        try:
+            box['r'] = mod.run_impl(case)
+        except BaseException as e:      # noqa: B902 - reported to the main thread
+            box['e'] = e
+    t = threading.Thread(target=work, daemon=True)
+    t.start()
+    t.join()
+    if 'e' in box:
+        raise box['e']
+    return box.get('r')
+
+
 def run_impl_guarded(mod, case, limit=20):
     signal.signal(signal.SIGALRM, _alarm)
     signal.alarm(limit if HANGS[0] == 0 else 4)     # once one case has hung, do not wait 20 s for each of the next
+    CALLS[0] += 1
     try:
+        if CALLS[0] % THREAD_EVERY == 0 and not getattr(mod, 'MAIN_THREAD_ONLY', False) \
+                and os.environ.get('VERIF_NO_WORKER') != '1':
+            return _in_worker(mod, case)
         return mod.run_impl(case)
     except CaseTimeout:
         HANGS[0] += 1
